@@ -76,10 +76,16 @@ struct Recorder {
    std::vector<int> fired;
    std::vector<int> self;                 // per entry of `fired`: did the hook receive the node being visited?
    const void* target = nullptr;          // most-derived address of the node being visited
+   bool raise_once = false;               // the next hook entered raises Hook_raised (once)
+   const Node* enter_again = nullptr;     // the next hook entered visits this node again, with this very visitor, before returning (once)
+   Visitor* as_visitor = nullptr;
+   struct Hook_raised { };
    template<class X> void record(int hook, const X& received)
    {
       fired.push_back(hook);
       self.push_back(dynamic_cast<const void*>(&received) == target ? 1 : 0);
+      if (raise_once) { raise_once = false; throw Hook_raised{ }; }
+      if (enter_again != nullptr) { auto n = enter_again; enter_again = nullptr; n->accept(*as_visitor); }
    }
 };
 
@@ -195,6 +201,27 @@ static void observe(const char* label, const Node& n)
    Defaults_only v2;
    v2.target = v1.target;
    n.accept(v2);
+   // `accept` enters the hooks once PER CALL, whatever the history of this (node, visitor) pair: a visitor whose first hook raised is
+   // offered the node again (same visitor object, same node); and a hook that, before returning, has the same visitor visit the same
+   // node again (what a traversal does on a cyclic graph).
+   Defaults_only v3;
+   v3.target = v1.target;
+   v3.raise_once = true;
+   try { n.accept(v3); } catch (const Recorder::Hook_raised&) { }
+   v3.fired.clear(); v3.self.clear();
+   n.accept(v3);
+   Defaults_only v4;
+   v4.target = v1.target;
+   v4.enter_again = &n;
+   v4.as_visitor = &v4;
+   n.accept(v4);
+   All_hooks v5;
+   v5.target = v1.target;
+   v5.raise_once = true;
+   try { n.accept(v5); } catch (const Recorder::Hook_raised&) { }
+   v5.enter_again = &n;
+   v5.as_visitor = &v5;
+   n.accept(v5);
    const char* remaster = "-";
    if (auto* d = dynamic_cast<const ipr::Decl*>(&n)) {
       try { remaster = dynamic_cast<const void*>(&d->master()) == v1.target ? "0" : "1"; }
@@ -202,10 +229,10 @@ static void observe(const char* label, const Node& n)
    }
    const char* mangled = typeid(n).name();
    if (*mangled == '*') ++mangled;                       // internal-linkage types
-   std::printf("node\t%s\tcls=%s\tsym=%s\tcat=%d\tdyn=%s\tabsdyn=%s\tfired=%s\tchain=%s\tview1=%s\tview2=%s\tfiredself=%s\tchainself=%s\tremaster=%s\n",
+   std::printf("node\t%s\tcls=%s\tsym=%s\tcat=%d\tdyn=%s\tabsdyn=%s\tfired=%s\tchain=%s\tview1=%s\tview2=%s\tfiredself=%s\tchainself=%s\tremaster=%s\trechain=%s\tnested=%s\trefired=%s\n",
                label, cls.c_str(), mangled, static_cast<int>(n.category), join(dyn).c_str(), join(absdyn).c_str(),
                join(v1.fired).c_str(), join(v2.fired).c_str(), join(view1).c_str(), join(view2).c_str(),
-               join(v1.self).c_str(), join(v2.self).c_str(), remaster);
+               join(v1.self).c_str(), join(v2.self).c_str(), remaster, join(v3.fired).c_str(), join(v4.fired).c_str(), join(v5.fired).c_str());
 }
 
 // view<K> asked through the STATIC type the factory handed out (an implementation class, or an interface more derived than Node) must
@@ -561,6 +588,42 @@ static void build_and_observe(unsigned variant)
    obs("make_while", lex.make_while());
    obs("make_for", lex.make_for());
    obs("make_for_in", lex.make_for_in());
+
+   // -- the same classes once more, built with EVERY value of the operands that are data (enumerations, bit sets, levels), the zero
+   //    value first, and with enclosed operands of several categories (also of the node's own category): what a node answers for
+   //    category, accept, the default hooks and view<K> is a matter of its class, never of the values it holds
+   {
+      auto& lit2 = *lex.make_literal(U, u8"1");
+      const ipr::Expr* inner[] = { &lit2, &lex.get_pointer(T), lex.make_cast(T, lit2), lex.make_phantom(), lex.make_id_expr(id2),
+                                   lex.make_enclosure(ipr::Delimiter::Brace, lit2), lex.make_phased_evaluation(lit2, Phases::Typing) };
+      for (auto d : { ipr::Delimiter::Nothing, ipr::Delimiter::Paren, ipr::Delimiter::Brace, ipr::Delimiter::Bracket, ipr::Delimiter::Angle })
+         for (auto x : inner) {
+            obs("make_enclosure(every delimiter, every kind of enclosed expression)", lex.make_enclosure(d, *x));
+            obs("make_enclosure(typed)", lex.make_enclosure(d, *x, T));
+         }
+      for (unsigned ph : { 0x0u, 0x1u, 0x2u, 0x4u, 0x8u, 0x10u, 0x20u, 0x40u, 0x80u, 0x100u, 0x200u, 0x400u, 0x7ffu, 0x60u, 0xffffffffu })
+         for (auto x : inner)
+            obs("make_phased_evaluation(every phase set)", lex.make_phased_evaluation(*x, static_cast<Phases>(ph)));
+      for (auto k : { ipr::Enum::Kind::Legacy, ipr::Enum::Kind::Scoped })
+         obs("make_enum(every kind)", lex.make_enum(global, k));
+      for (std::size_t lvl : { std::size_t{0}, std::size_t{1}, std::size_t{2}, std::size_t{255}, ~std::size_t{0} }) {
+         obs("make_mapping(every level)", lex.make_mapping(global, Mapping_level{lvl}));
+         obs("make_lambda(every level)", lex.make_lambda(global, Mapping_level{lvl}));
+         obs("make_requires(every level)", lex.make_requires(global, Mapping_level{lvl}));
+      }
+      for (std::uintptr_t q : { std::uintptr_t{1}, std::uintptr_t{2}, std::uintptr_t{4}, std::uintptr_t{7}, std::uintptr_t{8}, std::uintptr_t{1} << 40 }) {
+         obs("get_qualified(every qualifier set)", lex.get_qualified(static_cast<ipr::Qualifiers>(q), U));
+         obs("make_qualification(every qualifier set)", lex.make_qualification(lit2, static_cast<ipr::Qualifiers>(q), T));
+      }
+      obs("make_qualification(no qualifier)", lex.make_qualification(lit2, ipr::Qualifiers{ }, T));
+      for (auto c : { Category_code::Plus, Category_code::Comma, Category_code::And, static_cast<Category_code>(0), Category_code::Binary_fold, Category_code::Literal })
+         obs("make_binary_fold(every operation)", lex.make_binary_fold(c, lit2, *inner[1]));
+      for (auto x : inner) {
+         obs("make_expr_stmt(every kind of expression)", lex.make_expr_stmt(*x));
+         obs("make_rewrite(every kind of expression)", lex.make_rewrite(*x, *x));
+         obs("get_as_type(every kind of expression)", lex.get_as_type(*x));
+      }
+   }
 }
 
 int main(int argc, char** argv)
